@@ -25,7 +25,7 @@ import mixgen
 import c09
 
 META = {
-    'text': 'Theorems (Lean 4): (a) over explicit-store models of the three aliasing sites the property names — the interaction matrix handed to dbm_p.coefs by reference, the depth array of ambient.get_values, the FluidParticle.K warm-start cache — frame theorems (caller-visible arrays unchanged) where true (calc_delta <= 0; get_values as repaired), REFUTATION where false for the code as written (calc_delta > 0 overwrites FluidMixture.delta; exact description of what is overwritten), and repeat-call equality of every query after ANY history of queries (by induction over the history; for mixed-phase particles under the stated flash-stability hypothesis, refuted without it); (b) over a model of blowout.Blowout as parameters + flags (update, new_oil, constructor-only q_type), for every sequence of update calls over all 13 update methods: the refreshed object equals the object constructed with the final parameters provided the sequence does not change whether num_oil_elements is positive; the unrestricted statement is REFUTED (witness update_num_oil_elements(0)). Real code: seeded random histories of 1-12 queries on one mixture / particle / profile object with deep snapshots of every argument array and of the attribute dict around every call and repeated queries; random sequences of 1-8 Blowout update calls compared attribute by attribute with a fresh Blowout; the models are tied to the code by replaying the recorded library calls / flags.',
+    'text': 'Theorems (Lean 4; the models carry the code variant of each defect site and the harness determines which variant the tree under test is): (a) over explicit-store models of the three aliasing sites the property names — the interaction matrix handed to dbm_p.coefs by reference, the depth array of ambient.get_values, the FluidParticle.K warm-start cache — frame theorems (caller-visible arrays unchanged) where true (calc_delta <= 0; get_values as repaired), REFUTATION where false for the code as written (calc_delta > 0 overwrites FluidMixture.delta; exact description of what is overwritten), and repeat-call equality of every query after ANY history of queries (by induction over the history; for mixed-phase particles under the stated flash-stability hypothesis, refuted without it); (b) over a model of blowout.Blowout as parameters + flags (update, new_oil, constructor-only q_type), for every sequence of update calls over all 13 update methods: the refreshed object equals the object constructed with the final parameters provided the sequence does not change whether num_oil_elements is positive; the unrestricted statement is REFUTED (witness update_num_oil_elements(0)). Real code: seeded random histories of 1-12 queries on one mixture / particle / profile object with deep snapshots of every argument array and of the attribute dict around every call and repeated queries; random sequences of 1-8 Blowout update calls compared attribute by attribute with a fresh Blowout; the models are tied to the code by replaying the recorded library calls / flags.',
     'note': 'Trusted: Lean kernel + 3 standard axioms; hand transcriptions Model/Blowout.lean, Model/Particle09.lean (validated every run by correspondence); the snapshot / comparison code of the harness. NOT modelled: the equations of state and everything Blowout._update derives (library parameters). Purity of the queries that are not among the three named aliasing sites is SAMPLED by the snapshot histories only. Scope: generated masses are non-negative (the deliberate in-place clipping m[m<0]=0 of SingleParticle.properties is outside the quantifier); FluidParticle.K is a cache, not a physical parameter.',
     'technique': 'Lean 4 proof over hand-written explicit-store / flag-machine models (induction over call histories) + snapshot histories and fresh-object comparison on the real code + oracle-table correspondence',
 }
@@ -39,7 +39,8 @@ RULE = ('histories of 1-12 queries on ONE object: FluidMixture of 1-5 database c
         'get_values (scalar / list / ndarray depths inside, above and below the profile; list or str names incl. unknown names), '
         'get_units, buoyancy_frequency; every (method, state) pair is re-asked later in the history with probability 1/2; '
         'Blowout: initial parameters from 3 substances x 3-5 water data x 3 current data, 1-8 update calls drawn from all 13 update '
-        'methods, 40 % of the sequences switch num_oil_elements or num_gas_elements to zero (half of them back). A history is '
+        'methods (first every method once as a single-call sequence), 40 % of the random sequences switch num_oil_elements or '
+        'num_gas_elements to zero (half of them back). A history is '
         'non-trivial when its (object kind, method sequence, state pattern) is new')
 LEVEL_NOTE = ('theorems about hand-written store / flag models (all histories, by induction); tied to /repo by snapshot histories and '
               'recorded-call correspondence (sampled); purity of queries outside the three modelled aliasing sites is sampled only')
@@ -435,6 +436,33 @@ def profile_histories(ctx, r, n, lines, owners):
 # coefs store model vs the real routine
 # ---------------------------------------------------------------------------
 
+VARIANT = {'aliased': 1, 'revisit': 0}
+
+
+def detect_variants(ctx):
+    """which text of the defect sites the tree under test has (Lean witnesses replayed on the real code)"""
+    from tamoc import dbm, blowout
+    c09.detect_code_variant(ctx)
+    with S.quiet():
+        fm = dbm.FluidMixture(['methane', 'n-decane'], delta_groups={})
+        store = np.zeros((2, 2))
+        dbm.dbm_f.coefs(300., 1e7, np.array([0.5, 0.5]), fm.M, fm.Pc, fm.Tc, fm.omega, store, fm.Aij, fm.Bij, fm.delta_groups,
+                        fm.calc_delta)
+    VARIANT['aliased'] = int(bool(np.any(store != 0.)))
+    z = np.linspace(0., 1500., 30)
+    data = np.vstack((z, 277.15 + 16. * np.exp(-z / 300.), 34.5 + 0.5 * (1. - np.exp(-z / 500.)))).T
+    with S.quiet():
+        from tamoc import ambient
+        prf = ambient.Profile(data, ztsp=['z', 'temperature', 'salinity', 'pressure'], ztsp_units=['m', 'K', 'psu', 'Pa'])
+        b = blowout.Blowout(z0=800., d0=0.2, substance=SUBSTANCES[1], q_oil=20000., gor=500., num_gas_elements=2,
+                            num_oil_elements=2, water=prf, current=np.array([0.05, 0., 0.]))
+        b.update_num_oil_elements(0)
+    VARIANT['revisit'] = int(b.q_type == 0)
+    ctx.notes.append('code variant of the tree under test: dbm_p.coefs %s; Blowout.update_num_oil_elements %s' %
+                     ('writes into the caller\'s matrix (delta = delta_in, as first read)' if VARIANT['aliased'] else 'works on a copy (repaired)',
+                      're-evaluates q_type (repaired)' if VARIANT['revisit'] else 'leaves q_type as chosen in __init__ (as first read)'))
+
+
 def coefs_cases(ctx, r, n, lines, owners):
     from tamoc import dbm
     lib = dbm.dbm_f
@@ -447,12 +475,13 @@ def coefs_cases(ctx, r, n, lines, owners):
         m = mixgen.masses(r, nc)
         with S.quiet():
             lib.coefs(T, P, m, fm.M, fm.Pc, fm.Tc, fm.omega, store, fm.Aij, fm.Bij, fm.delta_groups, fm.calc_delta)
-        # oracle for the group-contribution values: what the routine wrote above the diagonal
+        # oracle for the group-contribution values: what the routine wrote above the diagonal (only visible when
+        # the routine writes into the caller's matrix; on the repaired code the store must simply be unchanged)
         gc = np.zeros((nc, nc))
         for i in range(nc):
             for j in range(i + 1, nc):
                 gc[i, j] = store[i, j]
-        lines.append(req('Pur19.coefs', int(fm.calc_delta > 0), nc, before.ravel(), gc.ravel()))
+        lines.append(req('Pur19.coefs', int(VARIANT['aliased']), int(fm.calc_delta > 0), nc, before.ravel(), gc.ravel()))
         owners.append(('coefs', store.ravel().tolist(), int(fm.calc_delta > 0), d))
         ctx.count('coefs calc_delta=%+d' % fm.calc_delta)
         ctx.evaluations += 1
@@ -572,7 +601,12 @@ def blowout_sequences(ctx, r, n, lines, owners):
             for _k in range(nops):
                 op = r.choice(OPS)
                 ops.append((op, op_value(r, op, waters, currents)))
-            if r.random() < 0.4:
+            if seq < len(OPS):
+                # sweep: every update method once as the ONLY call after construction (a method that forgets its
+                # dirty flag is invisible whenever another call in the sequence sets it)
+                ops = [(OPS[seq], op_value(r, OPS[seq], waters, currents))]
+                init['water'] = r.randrange(len(prfs))
+            elif r.random() < 0.4:
                 which = r.choice(['num_oil_elements', 'num_gas_elements'])
                 pos = r.randrange(len(ops) + 1)
                 ops.insert(pos, (which, 0))
@@ -665,7 +699,7 @@ def blowout_sequences(ctx, r, n, lines, owners):
                 ctx.violation(key, what, dict(descr, differing={k: (fpr.get(k), fpf.get(k)) for k in diffs[:6]}))
             # --- the flag machine of the Lean model against the real flags / get_oil calls
             p0 = trace[0][3:]
-            args = p0[:2] + [int(p0[2])] + p0[3:10] + [int(p0[10]), int(p0[11]), int(p0[12]), int(p0[13]), int(p0[14]), 0, 0]
+            args = [int(VARIANT['revisit'])] + p0[:2] + [int(p0[2])] + p0[3:10] + [int(p0[10]), int(p0[11]), int(p0[12]), int(p0[13]), int(p0[14]), 0, 0]
             for op, v in ops:
                 if op == 'produced_water':
                     v = float('nan') if v is None else float(v)
@@ -722,12 +756,13 @@ def compare_blowout(own, resp):
 def run(ctx, lean_ok):
     r = ctx.rng
     ctx.notes_raise = {}
+    detect_variants(ctx)
     lines, owners = [], []
     mixture_histories(ctx, r, ctx.n(60, 1500))
     particle_histories(ctx, r, ctx.n(45, 900), lines, owners)
     profile_histories(ctx, r, ctx.n(40, 800), lines, owners)
     coefs_cases(ctx, r, ctx.n(40, 600), lines, owners)
-    blowout_sequences(ctx, r, ctx.n(24, 300), lines, owners)
+    blowout_sequences(ctx, r, ctx.n(13 + 16, 13 + 300), lines, owners)
     for k, (d, x, text) in sorted(ctx.notes_raise.items()):
         ctx.notes.append('C20 finding candidate key=raises:%s first: %s on %r inputs %r' % (k, text, d, x))
 
